@@ -2,6 +2,7 @@ import PpciVerif.Spec.Elf
 import PpciVerif.Model.ElfW
 import PpciVerif.Gen.ElfHeaders
 import PpciVerif.Proofs.ElfW
+import PpciVerif.Proofs.ElfW3
 /-!
 # C17 — ELF output is read back faithfully by independent ELF readers  (shape P)
 
@@ -24,12 +25,20 @@ What is proved at full generality
 * `header_read_back` — class, byte order, e_type, e_machine, entry point
 * `segments_hold_images`, `page_loader_sees_image` — every PT_LOAD segment = Image.data at its vaddr
 
-What is NOT proved as one statement (`read_write_full`, kept below as a `def`): that `Spec.Elf.read`
-of the written file succeeds as a whole and that its section / symbol / relocation tables equal the
-object's.  The layers above (record round trip, chunk placement, string table, symbol order) are the
-ingredients; their composition through the section header table is evaluated on every real file by
-harness/c17.py instead (Lean reader on real bytes), hence the suffix `_partial` on the two end-to-end
-theorems that are proved.
+* `section_table_read_back_partial` — (1) every object section in the section header table the reader finds at
+  `e_shoff`: name (through `e_shstrndx`), address, size, alignment, file bytes = data; (4) image sections inside
+  their PT_LOAD segment at the congruent offset
+* `symbol_and_rela_tables_partial` — (2) .symtab header + contents = null entry + entries of locals-then-globals with
+  value / binding / type / section NAME / SHN_ABS / UND; (3) one RELA table per section: offset, symbol (through the
+  symtab order), type (arch parameter), addend
+* `read_write_partial` — the composition for one file under `Guard` (NUL-free names, unique section names, image
+  sections ⊆ object sections; one witness per guard)
+
+What is NOT proved (`read_write_full`, kept below as a `def`): the last step from the reader's primitives
+(`readTable`, `slice`, `strAt`, `mkSymbol`, `mkRela`, `checkInfo` — all covered by the theorems) to the reader's
+table drivers `readSections` / `readSymTabs` / `readRelaTabs` and hence `Spec.Elf.read file = .ok v` as ONE equation
+(these also need `sh_addr % sh_addralign = 0`, power-of-two alignments and `r_type` fitting the class, which the writer
+does not enforce).  That last step is evaluated on every real file by harness/c17.py (Lean reader on real bytes).
 -/
 namespace Props.C17
 open Spec.Elf Model.ElfW Proofs.ElfW
@@ -205,6 +214,86 @@ theorem page_loader_sees_image (file : List Nat) (c : Cls) (e : End) (hd : Rec) 
     (hc : sg.offset % 4096 = sg.vaddr % 4096) (i : Nat) (hi : i < sg.filesz) :
     pageMappedByte file 4096 sg (sg.vaddr + i) = sg.data[i]? :=
   pageMapped_eq (readSegments_data h sg hsg) hc i hi
+
+/-! ### end to end: the tables (one theorem per table, then the composition) -/
+
+/-- (1) SECTION HEADER TABLE + (4) consistency with the program headers.  For every written file, under `Guard`:
+    the reader's `readTable` at `e_shoff` (entry size and count from the ELF header it read) returns the null entry followed
+    by the writer's headers (`ShTab`); the entry selected by `e_shstrndx` is a STRTAB whose file bytes are the string table;
+    and for EVERY object section there is an entry with the section's address, size, alignment, type PROGBITS whose file
+    bytes `[sh_offset, sh_offset+sh_size)` are exactly the section's data and whose `sh_name` resolves in that string table to
+    the section's name (`SecRecOK`).  For executables every section of an image lies inside the image's PT_LOAD file range at
+    `sh_offset = p_offset + (sh_addr - p_vaddr)`, within `[p_vaddr, p_vaddr + p_filesz)`, the segment being congruent
+    (`ImgSecOK`). -/
+theorem section_table_read_back_partial (o : Obj) (t : EType) (file : List Nat)
+    (h : write (gabiLayouts o.arch.cls o.arch.en) o t = .ok file) (g : Guard o) :
+    ∃ (s6 : St) (hd : Rec) (phs : List Hdr) (pre : List Nat), ShTab o t file s6 hd phs pre ∧
+      (1 ≤ hd.get .e_shstrndx ∧ ∃ hs, phs[hd.get .e_shstrndx - 1]? = some hs ∧
+        Rec.get (recOf (shdr o.arch.cls) hs) .sh_type = 3 ∧
+        slice file (Rec.get (recOf (shdr o.arch.cls) hs) .sh_offset) (Rec.get (recOf (shdr o.arch.cls) hs) .sh_size)
+          = some s6.strtab) ∧
+      (∀ sec ∈ o.sections, ∃ (i : Nat) (h' : Hdr), phs[i]? = some h' ∧ SecRecOK file s6.strtab sec (recOf (shdr o.arch.cls) h')) ∧
+      (withImages o t = true → ∀ img ∈ o.images, ∀ sec ∈ img.sections, ImgSecOK s6 img sec) :=
+  export_sections_read h g.names g.inj g.img
+
+/-- (2) SYMBOL TABLE and (3) RELA TABLES.  For every written file whose names are storable: the final section header list
+    (which `ShTab` ties to what the reader finds at `e_shoff`) contains a SYMTAB header — `sh_entsize` = entry size,
+    `sh_size = entsize·(#symbols+1)`, `sh_info = #locals+1`, name ".symtab" — whose file range holds the null entry followed
+    by the packed entries of locals-then-globals (the permutation of `symbols_permutation`), each entry being
+    `symHdr name-offset binding type shndx value size` with the name offset resolving to the symbol's name, and
+    `(shndx, value)` = (0,0) for undefined, (SHN_ABS, value) for absolute, and for a symbol in section `sn`: value + address
+    of that section and the number of a section header whose NAME resolves to `sn` (`SymTabOK`/`SymEntryOK`/`PlaceOK`);
+    and, for relocatable files, for every relocation a RELA header for its section — name ".rela"+section, `sh_info` = number
+    of a header named like the section, `sh_size = entsize·#entries` — whose file range holds, in order, the packed entries
+    `relaHdr offset sym type addend` with the arch's type and `sym` = position in the written symbol table of a symbol with
+    the relocation's symbol id (`RelaTabOK`/`RelaEntryOK`).  Each packed entry is parsed back by the reader's own
+    `mkSymbol` / `mkRela` (`symbol_entry_read_back`, `rela_entry_read_back_partial`), tables by `table_roundtrip`, and the
+    reader's `sh_info` check accepts the order (`reader_accepts_symbol_order`). -/
+theorem symbol_and_rela_tables_partial (o : Obj) (t : EType) (file : List Nat)
+    (h : write (gabiLayouts o.arch.cls o.arch.en) o t = .ok file) (hn : NamesOK o) :
+    ∃ (s6 : St) (hd : Rec) (phs : List Hdr) (pre : List Nat), ShTab o t file s6 hd phs pre ∧
+      SymTabOK (gabiLayouts o.arch.cls o.arch.en) o s6 ∧
+      (t = .rel → ∀ r ∈ o.relocs, RelaTabOK (gabiLayouts o.arch.cls o.arch.en) o s6 r.sect) :=
+  export_symtab_rela h hn
+
+/-- COMPOSITION: everything above about ONE written file with one final writer state.  Exact remaining guard = `Guard o`
+    (names NUL-free; section names identify sections; image sections are object sections) — each violated by a witness
+    below.  What still separates this from `read_write_full`: the last step from the reader's primitives (`readTable`,
+    `slice`, `strAt`, `mkSymbol`, `mkRela`, `checkInfo`, all covered) to the reader's drivers `readSections` /
+    `readSymTabs` / `readRelaTabs` looping over the whole table (their success also needs `sh_addr % sh_addralign = 0`,
+    a power-of-two alignment and `r_type` fitting the class, which the writer does not enforce). -/
+theorem read_write_partial (o : Obj) (t : EType) (file : List Nat)
+    (h : write (gabiLayouts o.arch.cls o.arch.en) o t = .ok file) (g : Guard o) :
+    ∃ (s6 : St) (hd : Rec) (phs : List Hdr) (pre : List Nat), ShTab o t file s6 hd phs pre ∧
+      (1 ≤ hd.get .e_shstrndx ∧ ∃ hs, phs[hd.get .e_shstrndx - 1]? = some hs ∧
+        Rec.get (recOf (shdr o.arch.cls) hs) .sh_type = 3 ∧
+        slice file (Rec.get (recOf (shdr o.arch.cls) hs) .sh_offset) (Rec.get (recOf (shdr o.arch.cls) hs) .sh_size)
+          = some s6.strtab) ∧
+      (∀ sec ∈ o.sections, ∃ (i : Nat) (h' : Hdr), phs[i]? = some h' ∧ SecRecOK file s6.strtab sec (recOf (shdr o.arch.cls) h')) ∧
+      (withImages o t = true → ∀ img ∈ o.images, ∀ sec ∈ img.sections, ImgSecOK s6 img sec) ∧
+      SymTabOK (gabiLayouts o.arch.cls o.arch.en) o s6 ∧
+      (t = .rel → ∀ r ∈ o.relocs, RelaTabOK (gabiLayouts o.arch.cls o.arch.en) o s6 r.sect) :=
+  export_all_tables h g
+
+/-! #### witnesses: each guard is needed -/
+
+/-- a name with a NUL byte is not read back from a string table (`NamesOK`) -/
+example : strAt ([0] ++ [97, 0, 98] ++ [0]) 1 = some [97] := by decide
+
+/-- two sections with the same name (`Guard.inj`): the second one is never written -/
+example :
+    (match outcome (write (gabiLayouts .c64 .le) dupNameObj .rel) with
+     | .readBack s => (s.sections.filter (fun x => x.type == 1)).map (·.data)
+     | _ => []) = [[1, 2]] := by
+  decide +kernel
+
+/-- an image holding a section that is not the object's section of that name (`Guard.img`): the object's data is not
+    in the file -/
+example :
+    (match outcome (write (gabiLayouts .c32 .le) strangerImgObj .exec) with
+     | .readBack s => (s.sections.filter (fun x => x.type == 1)).map (·.data)
+     | _ => []) = [[9, 9, 9, 9]] := by
+  decide +kernel
 
 /-! ### the full statement (NOT proved as a whole — see the header of this file) -/
 
